@@ -494,6 +494,7 @@ func runC14(cfg *runCfg) error {
 				d   map[string]interface{}
 				err error
 			}
+			cfg.Crumb("introspection", cs)
 			ch := make(chan res, 1)
 			go func() {
 				defer func() {
@@ -547,10 +548,10 @@ func runC14(cfg *runCfg) error {
 			}
 			c.Printf("Definition frags%d : list fragdef := %s.\nDefinition vars%d : list (string * json) := %s.\nDefinition sels%d : list sel := %s.\nDefinition data%d : json := %s.\n",
 				id, c.Frags(parsed.Fragments), id, c.vars(cs.Vars), id, c.Sels(op.SelectionSet), id, c.JSON(out.d))
-			c.Printf("Eval vm_compute in (%d%%nat, true, c14_holds %s frags%d vars%d %d sels%d %d data%d, c14_guards frags%d sels%d).\n", id,
+			c.Printf("Eval vm_compute in (\"%d\"%%string, true, c14_holds %s frags%d vars%d %d sels%d %d data%d, c14_guards frags%d sels%d).\n", id,
 				isch, id, id, fuel, id, cls, id, id, id)
 			if os.Getenv("C14_DIFF") != "" {
-				c.Printf("Eval vm_compute in (%d%%nat, c14_diff %s frags%d vars%d %d sels%d data%d).\n", id, isch, id, id, fuel, id, id)
+				c.Printf("Eval vm_compute in (\"%d\"%%string, c14_diff %s frags%d vars%d %d sels%d data%d).\n", id, isch, id, id, fuel, id, id)
 			}
 			key, _ := json.Marshal(struct {
 				Q string
